@@ -23,7 +23,7 @@ Definition slice (G : list entry) (pli plt : N) (es : list entry) : Prop :=
   (pli = 0 \/ exists e, nth_error G (N.to_nat pli - 1) = Some e /\ e_term e = plt).
 
 Definition ae_from (t m : N) (lg : list entry) (r : rpc) : Prop :=
-  no_ae r \/ exists pli plt lc, r = AE t m pli plt (skipn (N.to_nat pli) lg) lc /\
+  exists pli plt lc, r = AE t m pli plt (skipn (N.to_nat pli) lg) lc /\
                               slice lg pli plt (skipn (N.to_nat pli) lg).
 
 (* messages a log-quiet step may add: failed replies, or the RequestVote of a fresh candidate *)
@@ -48,7 +48,7 @@ Inductive leff (n : N) (y : ystate) : ystate -> Prop :=
     commit s' = commit s ->
     (forall f to r, In (f, to, r) sent' -> In (f, to, r) (x_sent x) \/ (f = m /\ lmsg s' r)) ->
     (rrole s' = Candidate -> rrole s = Candidate /\ term s' = term s /\ votes s' = votes s) ->
-    mi_ok x m s s' ->
+    mi_ok x m s s' -> incl (x_sent x) sent' ->
     leff n y (mkY (mkX (updf (x_st x) m s') sent' cast' el') (y_gl y))
 | LWin : forall m s',
     let x := y_x y in let s := x_st x m in
@@ -82,7 +82,7 @@ Inductive leff (n : N) (y : ystate) : ystate -> Prop :=
     let x := y_x y in let s := x_st x m in
     eff n x (mkX (updf (x_st x) m s') (x_sent x ++ tag_out m o) (x_cast x) (x_elected x)) ->
     In (f, m, AE (term s) ldr pli plt es lc) (x_sent x) ->
-    rrole s <> Leader -> rrole s' <> Leader -> term s' = term s ->
+    rrole s <> Leader -> rrole s' = Follower -> term s' = term s ->
     (pli = 0 \/ (pli <= len (log s) /\
                  exists e, nth_error (log s) (N.to_nat pli - 1) = Some e /\ e_term e = plt)) ->
     append_entries (log s) cmt es = Some (log s') ->
@@ -325,7 +325,7 @@ Proof.
   - intros a i e H. ucases a m; auto. rewrite Hlog in *. apply L2; auto.
   - intros f to t ldr pli plt es lc H. apply in_app_or in H. destruct H as [H|H]; [eapply L3; eauto|].
     unfold tag_out in H. apply in_map_iff in H. destruct H as ([to' r'] & E & Hin). cbn in E. inversion E; subst.
-    destruct (Ho _ _ Hin) as [[]|(pli' & plt' & lc' & E1 & S1)]. inversion E1; subst.
+    destruct (Ho _ _ Hin) as (pli' & plt' & lc' & E1 & S1). inversion E1; subst.
     split; [exact HE|]. rewrite <- HG. exact S1.
   - intros t c H. destruct (L5 _ _ H) as [A B]. ucases c m; auto. fold s in A, B. rewrite Ht. split; auto.
   - intros a i e H. ucases a m; eauto. rewrite Hlog in *. eapply L6; eauto.
@@ -388,7 +388,7 @@ Proof.
   - eapply win_inv; eauto.
   - eapply append_inv; eauto.
   - eapply send_inv; eauto.
-  - subst cmt. eapply recv_inv; eauto.
+  - subst cmt. eapply recv_inv; eauto. congruence.
   - (* LGrant *)
     eapply same_inv; eauto; fold x; fold s; try lia.
     + intros R. split; congruence.
